@@ -213,9 +213,9 @@ func runRecord(self, tracePath, scratch string, seed int64, ntraces, steps, maxI
 	for t := 0; t < ntraces; t++ {
 		shape := pdb.Shape{NAcc: 1 + r.Intn(2), NSlot: r.Intn(3), Counter: true}
 		cfg := pdb.Config{
-			MaxDiff:    []int{1, 2, 3}[r.Intn(3)],
+			MaxDiff:    []int{1, 1, 2}[r.Intn(3)],
 			HistLimit:  []uint64{0, 0, 2, 3}[r.Intn(4)],
-			BufSize:    []int{0, 1200, 1 << 22, 1 << 22}[r.Intn(4)],
+			BufSize:    []int{0, 1200, 1 << 22, 1 << 22, 1 << 22}[r.Intn(5)],
 			Async:      r.Intn(2) == 0,
 			Cancun:     r.Intn(2) == 0,
 			CleanCache: 0,
@@ -237,15 +237,15 @@ func runRecord(self, tracePath, scratch string, seed int64, ntraces, steps, maxI
 			var run func()
 			c := r.Intn(100)
 			switch {
-			case c < 62:
+			case c < 55:
 				n, touch, recreate := rn.RandomWorld(rn.E.WorldOfRoot(roots[top]), 3)
 				x = tl.M{"t": "U", "j": top}
 				run = func() { sig += "U" + rn.Update(top, n, touch, recreate)[:1] }
-			case c < 72:
+			case c < 62:
 				i := r.Intn(top + 1)
 				x = tl.M{"t": "C", "i": i}
 				run = func() { rn.Commit(i); sig += "C" }
-			case c < 88:
+			case c < 78:
 				var cands []pdb.World
 				for _, wi := range rn.E.Reg.Order {
 					if ok, _ := rn.E.TDB.Recoverable(wi.Root); ok {
